@@ -16,6 +16,7 @@ import (
 	"os"
 	"runtime"
 	"sync"
+	"sync/atomic"
 	"time"
 )
 
@@ -27,6 +28,8 @@ const (
 	c13TRIG = -3
 	c13END  = -4
 	c13FAIL = -5
+	c13BADACT = -6
+	c13BADCFG = -7
 )
 
 // chanReader: Read blocks until the driver hands a chunk over; chunk boundaries are preserved.
@@ -104,16 +107,36 @@ func (w *c13Writer) Write(p []byte) (int, error) {
 	return len(p), nil
 }
 
+// c13Classify maps a delivered ASCII line to its token; round 2 items are token - 10.  The round is
+// read from what survives the relay's rewriting: the trigger's id, the ACT's "lang", the CFG's
+// "timeout", the EXIT text.
 func c13Classify(line []byte) int {
+	round := func(second bool, tok int) int {
+		if second {
+			return tok - 10
+		}
+		return tok
+	}
+	payload := func(typ string) []byte {
+		i := bytes.Index(line, []byte("#"+typ+":"))
+		if i < 0 {
+			return nil
+		}
+		dec, err := decodeString(string(bytes.TrimRight(line[i+len(typ)+2:], "\r\n")))
+		if err != nil {
+			return nil
+		}
+		return dec
+	}
 	switch {
 	case bytes.Contains(line, []byte("::TRZSZ:TRANSFER:")):
-		return c13TRIG
+		return round(bytes.Contains(line, []byte(":R:1.1.9:")), c13TRIG)
 	case bytes.Contains(line, []byte("#ACT:")):
-		return c13ACT
+		return round(bytes.Contains(payload("ACT"), []byte(`"lang":"go2"`)), c13ACT)
 	case bytes.Contains(line, []byte("#CFG:")):
-		return c13CFG
+		return round(bytes.Contains(payload("CFG"), []byte(`"timeout":21`)), c13CFG)
 	case bytes.Contains(line, []byte("#EXIT:")):
-		return c13END
+		return round(bytes.Contains(payload("EXIT"), []byte("bye2")), c13END)
 	case bytes.Contains(line, []byte("#FAIL:")) || bytes.Contains(line, []byte("#fail:")):
 		return c13FAIL
 	}
@@ -123,17 +146,42 @@ func c13Classify(line []byte) int {
 func c13Render(toks []int, uid int64, confirm bool) []byte {
 	var b bytes.Buffer
 	for _, t := range toks {
-		switch t {
+		second := t <= -11
+		k := t
+		if second {
+			k = t + 10
+		}
+		switch k {
 		case c13TRIG:
-			b.WriteString(fmt.Sprintf("::TRZSZ:TRANSFER:R:1.1.8:%013d:0\r\n", uid))
+			ver := "1.1.8"
+			if second {
+				ver = "1.1.9"
+			}
+			b.WriteString(fmt.Sprintf("::TRZSZ:TRANSFER:R:%s:%013d:0\r\n", ver, uid+map[bool]int64{false: 0, true: 100}[second]))
 		case c13ACT:
-			act, _ := json.Marshal(&transferAction{Lang: "go", Version: "1.1.8", Confirm: confirm, Newline: "\n", Protocol: 4,
+			lang := "go"
+			if second {
+				lang = "go2"
+			}
+			act, _ := json.Marshal(&transferAction{Lang: lang, Version: "1.1.8", Confirm: confirm, Newline: "\n", Protocol: 4,
 				SupportBinary: true, SupportDirectory: true})
 			b.WriteString("#ACT:" + encodeString(string(act)) + "\n")
 		case c13CFG:
-			b.WriteString("#CFG:" + encodeString(`{"lang":"go","bufsize":10485760,"timeout":20,"protocol":4}`) + "\n")
+			tmo := 20
+			if second {
+				tmo = 21
+			}
+			b.WriteString("#CFG:" + encodeString(fmt.Sprintf(`{"lang":"go","bufsize":10485760,"timeout":%d,"protocol":4}`, tmo)) + "\n")
 		case c13END:
-			b.WriteString("#EXIT:" + encodeString("bye") + "\n")
+			txt := "bye"
+			if second {
+				txt = "bye2"
+			}
+			b.WriteString("#EXIT:" + encodeString(txt) + "\n")
+		case c13BADACT:
+			b.WriteString("#ACT:%%%%\n")
+		case c13BADCFG:
+			b.WriteString("#CFG:%%%%\n")
 		default:
 			b.WriteByte(byte(t))
 		}
@@ -172,18 +220,45 @@ func c13Gen(r *rand.Rand) c13Scenario {
 		c = append(c, tok)
 		return append(c, plain(r.Intn(3))...)
 	}
-	s := c13Scenario{Confirm: r.Intn(5) != 0}
+	s := c13Scenario{Confirm: r.Intn(6) != 0}
+	outcome := "ok"
+	if s.Confirm {
+		switch r.Intn(8) {
+		case 0:
+			outcome = "badact"
+		case 1, 2:
+			outcome = "badcfg"
+		}
+	}
+	act := c13ACT
+	if outcome == "badact" {
+		act = c13BADACT
+	}
 	s.Cli = append(s.Cli, chunks(r.Intn(4), 3)...)
-	s.Cli = append(s.Cli, with(c13ACT))
+	s.Cli = append(s.Cli, with(act))
 	s.Cli = append(s.Cli, chunks(r.Intn(4), 3)...)
 	s.Srv = append(s.Srv, chunks(r.Intn(3), 3)...)
 	s.Srv = append(s.Srv, with(c13TRIG))
 	s.Srv = append(s.Srv, chunks(r.Intn(3), 3)...)
-	if s.Confirm {
-		s.Srv = append(s.Srv, with(c13CFG))
+	if s.Confirm && outcome != "badact" {
+		cfg := c13CFG
+		if outcome == "badcfg" {
+			cfg = c13BADCFG
+		}
+		s.Srv = append(s.Srv, with(cfg))
 		s.Srv = append(s.Srv, chunks(r.Intn(4), 3)...)
+	}
+	if s.Confirm && outcome == "ok" {
 		s.Cli = append(s.Cli, with(c13END))
 		s.Cli = append(s.Cli, chunks(r.Intn(2), 2)...)
+		if r.Intn(3) == 0 { // a second transfer through the same relay
+			s.Srv = append(s.Srv, with(c13TRIG-10))
+			s.Cli = append(s.Cli, with(c13ACT-10))
+			s.Srv = append(s.Srv, with(c13CFG-10))
+			s.Srv = append(s.Srv, chunks(r.Intn(2), 2)...)
+			s.Cli = append(s.Cli, with(c13END-10))
+			s.Cli = append(s.Cli, chunks(r.Intn(2), 2)...)
+		}
 	}
 	return s
 }
@@ -200,15 +275,10 @@ func c13Run(tr *vTrace, id int, sc c13Scenario, seed int64) (ok bool) {
 	uid = uid / 100 * 100                                           // suffix 00: a plain (non-tmux, non-Windows) server
 	tr.Emit(map[string]any{"e": "reset", "run": id, "confirm": sc.Confirm}, nil)
 
-	flushDone := make(chan struct{}, 4)
+	var flushes atomic.Int32
 	verifHook = func(point string, args ...int) {
 		if point == "relay.flush.done" {
-			defer func() {
-				select {
-				case flushDone <- struct{}{}:
-				default:
-				}
-			}()
+			defer flushes.Add(1)
 		}
 		a := make([]int, len(args))
 		copy(a, args)
@@ -246,7 +316,23 @@ func c13Run(tr *vTrace, id int, sc c13Scenario, seed int64) (ok bool) {
 	sout.onRead = func(u []int) {
 		tr.Emit(map[string]any{"e": "feed", "run": id, "side": "s", "u": u}, nil)
 	}
-	_ = NewTrzszRelay(cin, toClient, toServer, sout, TrzszOptions{})
+	relay := NewTrzszRelay(cin, toClient, toServer, sout, TrzszOptions{})
+	waitFlush := func(n int) bool {
+		for deadline := time.Now().Add(10 * time.Second); time.Now().Before(deadline); time.Sleep(200 * time.Microsecond) {
+			if int(flushes.Load()) >= n {
+				return true
+			}
+		}
+		return false
+	}
+	waitStandby := func() bool {
+		for deadline := time.Now().Add(10 * time.Second); time.Now().Before(deadline); time.Sleep(200 * time.Microsecond) {
+			if relay.relayStatus.Load() == kRelayStandBy {
+				return true
+			}
+		}
+		return false
+	}
 
 	waitSeen := func(w *c13Writer, tok int, d time.Duration) bool {
 		deadline := time.Now().Add(d)
@@ -275,15 +361,31 @@ func c13Run(tr *vTrace, id int, sc c13Scenario, seed int64) (ok bool) {
 	feed := func(side string, rd *c13Reader, chunks [][]int) {
 		defer wg.Done()
 		for _, c := range chunks {
-			// causality: the client answers the trigger it saw; the server answers the ACT it received
-			if side == "c" && has(c, c13ACT) && !waitSeen(toClient, c13TRIG, 5*time.Second) {
-				return
-			}
-			if side == "s" && has(c, c13CFG) && !waitSeen(toServer, c13ACT, 5*time.Second) {
-				return
-			}
-			if side == "c" && has(c, c13END) && !waitSeen(toClient, c13CFG, 5*time.Second) {
-				return
+			// causality: the client answers the trigger it saw; the server answers the ACT it received;
+			// a transfer ends (and a second one starts) only after the handshake worker has finished
+			for _, t := range c {
+				second := t <= -11
+				k := t
+				off := 0
+				if second {
+					k, off = t+10, -10
+				}
+				ok := true
+				switch k {
+				case c13ACT, c13BADACT:
+					ok = waitSeen(toClient, c13TRIG+off, 5*time.Second)
+				case c13CFG, c13BADCFG:
+					ok = waitSeen(toServer, c13ACT+off, 5*time.Second)
+				case c13END:
+					ok = waitSeen(toClient, c13CFG+off, 5*time.Second) && waitFlush(1+map[bool]int{false: 0, true: 1}[second])
+				case c13TRIG:
+					if second {
+						ok = waitSeen(toServer, c13END, 5*time.Second) && waitStandby()
+					}
+				}
+				if !ok {
+					return
+				}
 			}
 			switch rnd(5) {
 			case 0:
@@ -316,10 +418,13 @@ func c13Run(tr *vTrace, id int, sc c13Scenario, seed int64) (ok bool) {
 	}
 	lc, ls := last(sc.Cli), last(sc.Srv)
 	// the handshake worker has finished its flush (resetToStandby may spend a while in tmux refresh-client)
-	select {
-	case <-flushDone:
-	case <-time.After(10 * time.Second):
+	nhs := 1
+	for _, c := range sc.Srv {
+		if has(c, c13TRIG-10) {
+			nhs = 2
+		}
 	}
+	waitFlush(nhs)
 	waitSeen(toServer, lc, 3*time.Second)
 	waitSeen(toClient, ls, 3*time.Second)
 	time.Sleep(3 * time.Millisecond)
